@@ -375,8 +375,49 @@ func mkPhi(alts []*Expr) *Expr {
 	if len(out) == 1 {
 		return out[0]
 	}
+	if m := mergeStructs(out); m != nil {
+		return m
+	}
 	sort.Slice(out, func(i, j int) bool { return out[i].String() < out[j].String() })
 	return &Expr{Op: "phi", Args: out}
+}
+
+// mergeStructs turns alternatives that are all values of one struct type (field-wise struct
+// expressions, possibly mixed with opaque values of that type) into one struct expression
+// whose fields are the field-wise alternatives. Correlation between fields is lost, which is
+// sound for origin questions ("which values can this field hold").
+func mergeStructs(alts []*Expr) *Expr {
+	var proto *Expr
+	for _, a := range alts {
+		if a.Op == "struct" {
+			if proto == nil {
+				proto = a
+			} else if proto.Name != a.Name || len(proto.Fields) != len(a.Fields) {
+				return nil
+			}
+		}
+	}
+	if proto == nil {
+		return nil
+	}
+	for _, a := range alts {
+		if a.Op != "struct" && (a.Op == "const" || a.Op == "unknown" || a.Op == "loop") {
+			return nil
+		}
+	}
+	res := &Expr{Op: "struct", Name: proto.Name, T: proto.T, Fields: proto.Fields}
+	for i, f := range proto.Fields {
+		var fa []*Expr
+		for _, a := range alts {
+			if a.Op == "struct" {
+				fa = append(fa, a.Args[i])
+			} else {
+				fa = append(fa, fieldOf(a, f))
+			}
+		}
+		res.Args = append(res.Args, mkPhi(fa))
+	}
+	return res
 }
 
 func resOf(t *Expr, i int) *Expr {
@@ -1270,3 +1311,6 @@ func (b *builder) counter(p *ssa.Phi) *Expr {
 	cond := b.expr(iff.Cond)
 	return &Expr{Op: "counter", Name: pol, Args: []*Expr{cond}}
 }
+
+// FieldName returns the name of field i of the (pointer to) struct type t.
+func FieldName(t types.Type, i int) string { return fieldName(t, i) }
